@@ -204,6 +204,8 @@ pub struct OpsWorld {
     log_pos: usize,
     written_pos: usize,
     obs: u64,
+    /// Wakers registered for a free submission slot: (waker, wake count that consumes the entry).
+    slot_waiters: Vec<(HWaker, u64)>,
 }
 
 fn v(prop: &str, sig: &str, msg: String) -> Violation {
@@ -255,6 +257,7 @@ impl OpsWorld {
             log_pos: 0,
             written_pos: 0,
             obs: 0,
+            slot_waiters: Vec::new(),
         };
         for k in w.cfg.preset.clone() {
             w.new_op(k);
@@ -725,6 +728,14 @@ impl OpsWorld {
                     self.slots[i].phase = Phase::Running;
                 } else {
                     self.slots[i].blocked = true;
+                    // a10 keeps one list entry per blocked poll; an entry is
+                    // consumed by one wake of its waker.
+                    let outstanding = self
+                        .slot_waiters
+                        .iter()
+                        .filter(|(w, th)| w.flag.id == waker.flag.id && w.wakes() < *th)
+                        .count() as u64;
+                    self.slot_waiters.push((waker.clone(), waker.wakes() + outstanding + 1));
                 }
             }
         } else if submitted != 0 {
@@ -755,13 +766,11 @@ impl OpsWorld {
         let before: Vec<(usize, usize, bool)> = (0..self.slots.len())
             .map(|i| (i, self.processed(i), self.slots[i].blocked))
             .collect();
-        let blocked_unwoken: Vec<usize> = self
-            .slots
-            .iter()
-            .enumerate()
-            .filter(|(_, s)| s.blocked && !s.dropped && s.pending.is_some_and(|(w, _)| s.waker.wakes() == w))
-            .map(|(i, _)| i)
-            .collect();
+        self.slot_waiters.retain(|(w, th)| w.wakes() < *th);
+        // Only demanded of a Ring::poll call that has no completions to hand
+        // over first (one that does is followed by one that doesn't).
+        let cq_empty_at_call = simk::with(|k| k.rings[0].cq_ready() == 0 && k.rings[0].overflow.is_empty());
+        let waiting_before = if cq_empty_at_call { self.slot_waiters.len() } else { 0 };
         waker::tick();
         let res = talloc::track(|| self.ring.as_mut().unwrap().poll(Some(Duration::ZERO)));
         if let Err(e) = res {
@@ -795,22 +804,18 @@ impl OpsWorld {
                 self.report("C03", &sig, msg);
             }
         }
-        // C03: blocked futures must be woken when room is available.
-        if !blocked_unwoken.is_empty() {
+        // C03: futures waiting for a submission slot must be woken when room
+        // is available: every Ring::poll that returns with n free slots wakes
+        // at least min(n, waiting) of the registered wakers (a10 rations
+        // wake-ups by free slots, so that is all that is demanded).
+        if waiting_before > 0 {
             let avail = simk::with(|k| k.rings[0].sq_entries.saturating_sub(k.rings[0].sq_pending())) as usize;
-            let still: usize = blocked_unwoken
-                .iter()
-                .filter(|i| {
-                    let s = &self.slots[**i];
-                    s.pending.is_some_and(|(w, _)| s.waker.wakes() == w)
-                })
-                .count();
-            let woken = blocked_unwoken.len() - still;
-            let must = avail.min(blocked_unwoken.len());
+            let still = self.slot_waiters.iter().filter(|(w, th)| w.wakes() < *th).count();
+            let woken = waiting_before - still;
+            let must = avail.min(waiting_before);
             if woken < must {
                 let msg = format!(
-                    "{} operation(s) wait for a submission slot, Ring::poll returned with {avail} free slot(s) but woke only {woken}",
-                    blocked_unwoken.len()
+                    "{waiting_before} waker(s) wait for a submission slot, Ring::poll returned with {avail} free slot(s) but woke only {woken}",
                 );
                 self.report("C03", "lost-wakeup/queue-space", msg);
             }
